@@ -27,7 +27,7 @@ from olvc.evaluator import Machine
 from olvc.interp import Frame, IRaise
 from olvc.oblig import paths_or_undecided
 from olvc.runner import explore
-from olvc.sym import Opaque, Seg, SInt, ctx
+from olvc.sym import Opaque, Seg, SInt, Unsupported, ctx
 from olvc.tmpl import Hole
 
 PROPERTY = "C16"
@@ -67,6 +67,20 @@ def module_frame(extra=None):
     return Frame(None, g, g, [], name="__main__")
 
 
+def by_role(locals_, what, lst=None):
+    """module-level locals of the script identified by ROLE, not by name"""
+    C = cfgm()
+    if what == "cfg":
+        xs = [v for v in locals_.values() if isinstance(v, C.Configs)]
+    elif what == "parser":
+        xs = [v for v in locals_.values() if isinstance(v, argparse.ArgumentParser)]
+    elif what == "args_configs":  # the list the loop iterates: the -C list itself, or [] when -C was not given
+        xs = [v for k, v in locals_.items() if isinstance(v, list) and not k.startswith("__") and (v is lst or (lst is None and v == []))]
+    else:
+        xs = []
+    return xs[0] if len(xs) == 1 else None
+
+
 def run_prefix(args):
     pre, loop, post = main_tree()
     m = Machine(native_stubs={argparse.ArgumentParser.parse_args: lambda it, a, k: args})
@@ -99,7 +113,7 @@ def g_prefix(R, tier):
             v = p.value
             # the assumed contract of argparse must match the parser the script declares:
             # plain string arguments only (no `type=` that touches the file system at parse time)
-            parser = v["fr"].get("parser")
+            parser = by_role(v["fr"], "parser")
             if isinstance(parser, argparse.ArgumentParser):
                 bad = [(a.dest, a.type) for a in parser._actions if a.type not in (None, str)]
                 R.check(f"{base}/parsing-has-no-side-effects", not bad,
@@ -108,9 +122,9 @@ def g_prefix(R, tier):
                 dests = {a.dest: a for a in parser._actions}
                 R.check(f"{base}/declares-the-assumed-arguments", {"C", "input_filename", "output", "unparser"} <= set(dests)
                         and dests["C"].__class__.__name__ == "_AppendAction", repr(sorted(dests)))
-            cfg = v["fr"].get("cfg")
+            cfg = by_role(v["fr"], "cfg")
             R.check(f"{base}/fresh-default-options", isinstance(cfg, C.Configs) and not vars(cfg), f"cfg={cfg!r} vars={getattr(cfg, '__dict__', None)}")
-            ac = v["fr"].get("args_configs")
+            ac = by_role(v["fr"], "args_configs", v["lst"])
             R.check(f"{base}/all-C-arguments-in-order", (ac == [] and v["lst"] is None) or (ac is v["lst"]), repr(ac))
 
 
@@ -125,9 +139,9 @@ def g_step(R, tier):
         # ARBITRARY legal option state in place of the fresh one
         arg = Hole("arg", "str")
         m, fr, _ = run_prefix(mk_args([arg], None, None))
-        cfg = fr.locals.get("cfg")
+        cfg = by_role(fr.locals, "cfg")
         if not isinstance(cfg, C.Configs):
-            raise IRaise(RuntimeError("prefix does not leave a Configs object in `cfg`"))
+            raise Unsupported("the prefix of the script does not leave exactly one Configs object behind")
         state = {}
         for n_ in names:
             h = Hole(("state", n_), "str")
@@ -209,7 +223,7 @@ def g_step_bounded(R, tier):
     for s_ in CATALOGUE:
         def run(c, s_=s_):
             m, fr, _ = run_prefix(mk_args([s_], None, None))
-            cfg = fr.locals.get("cfg")
+            cfg = by_role(fr.locals, "cfg")
             c.writes.clear()
             fr.locals[loop.target.id] = s_
             m.run(m.exec_block(loop.body, fr))
